@@ -227,25 +227,34 @@ Section InterpInv.
     apply inv_bind; [apply inv_upd_cleanup; reflexivity|intros _]. weak.
   Qed.
 
+  Lemma inv_custom_end r : INV (custom_end r).
+  Proof.
+    unfold custom_end.
+    assert (H : INV (_ <- emit_u (UCustomEnd (match r with Ok _ => 0 | Err _ => 1 end)) ;;
+                 match r with Ok v => _ <- failOnError SCustomFOE ;; ret v | Err e => throw e end)).
+    { apply inv_bind; [apply inv_emit_u|intros _]. destruct r; inv_auto. }
+    destruct r as [v|[]]; try exact H. apply inv_throw.
+  Qed.
   Lemma inv_custom_inner (body : M val) : INV body -> INVb false (custom_inner LF crun body).
   Proof.
     intros Hb. unfold custom_inner. apply inv_bind; [weak|intros _].
-    apply inv_try; [apply INV_weaken, Hb|intros r].
+    apply inv_try; [apply INV_weaken; apply inv_try; [exact Hb|apply inv_custom_end]|intros r].
     unfold custom_handler.
-    assert (H : INVb false (_ <- emit_u (UCustomEnd (match r with Ok _ => 0 | Err _ => 1 end)) ;;
+    assert (H : INVb false (
+                 t0 <- get_ts ;;
                  c <- cleanup LF crun ;;
                  match c, r with
                  | Some e, Err (XInvalid m) => _ <- (if internal_msg m then mark_dirty else ret tt) ;; throw e
                  | Some e, _ => throw e
                  | None, Ok v => ret (Some v)
-                 | None, Err (XInvalid _) => ret None
+                 | None, Err (XInvalid m) => match failed t0 with Some _ => throw (XInvalid m) | None => ret None end
                  | None, Err e => throw e
                  end)).
-    { apply inv_bind; [weak|intros _].
+    { apply inv_bind; [weak|intros t0].
       apply inv_bind; [apply inv_cleanup|intros c].
       destruct c as [e|]; destruct r as [v|e']; try weak.
       - destruct e'; try weak. apply inv_bind; [destruct (internal_msg m); weak|intros; weak].
-      - destruct e'; weak. }
+      - destruct e'; try weak. destruct (failed t0); weak. }
     destruct r as [v|[]]; try exact H. weak.
   Qed.
   Lemma inv_custom_att (body : M val) : INV body -> INV (custom_att LF crun body).
@@ -265,7 +274,7 @@ Section InterpInv.
     - apply inv_try_w; [apply Ha|]. intros r wa. apply inv_bind; [inv_auto|intros _].
       destruct r; inv_auto.
     - intros r wa. destruct r as [v|e]; [inv_auto|]. destruct e; inv_auto.
-      destruct (Nat.eqb _ _); inv_auto. destruct (internal_msg m); inv_auto.
+      destruct (failed a); inv_auto. destruct (Nat.eqb _ _); inv_auto. destruct (internal_msg m); inv_auto.
   Qed.
   Lemma inv_exec_action id nacts (run_act : nat -> val -> M val) :
     (forall i s, INV (run_act i s)) -> forall tries s, INV (exec_action geom LF id nacts run_act tries s).
